@@ -33,10 +33,10 @@ CLASSES = ("index", "slice", "arith", "cast", "shift", "div", "panic")
 def run(ctx):
     rts = roots(ctx, ENTRY)
     sc = scope_of(ctx, rts, within=lambda p: p.startswith("pocket_types::"))
-    ctx.floor("C03.scope-functions", len(sc), 40)
+    ctx.floor("C03.scope-functions", len(sc), 20)
     obs = g_obligations(ctx, sc, CLASSES)
     n_sites = len(obs)
-    ctx.floor("C03.partial-operation-sites", n_sites, 300)
+    ctx.floor("C03.partial-operation-sites", n_sites, 100)
     for o in obs:
         ctx.add(o)
     for o in progress_obligations(ctx, sc):
